@@ -308,7 +308,7 @@ def run(ctx):
 
     root = os.path.join(ctx.scratch, "c11run")
     os.makedirs(root)
-    moddir = os.path.join(vlib.BUILD, "harness_" + vlib.sha(vlib.REPO)) if vlib.PRIVATE else vlib.HARNESS
+    moddir = os.path.join(vlib.BUILD, "harness_" + getattr(vlib, "PTAG", vlib.sha(vlib.REPO))) if vlib.PRIVATE else vlib.HARNESS
     rc, out = ctx.run([impl, "-root", root, "-moddir", moddir], input="\n".join(json.dumps(c) for c in cases) + "\n", timeout=300)
     res = [json.loads(l) for l in out.splitlines() if l.startswith("{")]
     if rc != 0 or len(res) != len(cases):
